@@ -2,6 +2,7 @@
 import glob
 import json
 import os
+import time
 import traceback
 
 from harness import fw
@@ -9,8 +10,8 @@ from harness import lr_tables as L
 
 META = {
     "technique": "Coq proof that a first-order LR table validator (check_sound) is sound for the model of Parser.parse, for all tables; the validator applied (extracted OCaml; inside Coq for a sample / all in thorough) to the tables lr1.py builds for the Emboss module and expression grammars and for N random small CFGs per run; differential correspondence Parser.parse vs model on all strings up to length 6 (small grammars) and derived sentences + mutations (Emboss), cross-checked with an independent Earley recogniser, ambiguity counter and derivation checker",
-    "level_text": "Machine-checked theorems (Coq 8.16, no axioms), for ALL tables, certificates, grammars, token lists and fuel: if check_sound G T C = true and run T accepts, the returned tree is a derivation tree of the start symbol of G whose leaves are the input tokens in order (run_sound, run_sound_gen); an error at index i depends only on tokens 0..i (run_prefix_det). The generator is covered per instance: each run rebuilds the Emboss parsers and N random small grammars' parsers with the working tree's lr1.py and decides check_sound on their tables. Completeness (every sentence accepted, errors not late/early, conflict reports) is NOT proved: it is tested on every string up to length 6 (small grammars) and on sampled Emboss sentences against an independent Earley recogniser.",
-    "level_note": "sound; completeness partial (run_complete / error_not_late / error_not_early unproved; covered by Earley differential testing only). Trusted: Coq kernel + vm_compute; extraction + OCaml for instance checks in quick (a sample is re-evaluated inside Coq and compared; thorough re-evaluates all small-grammar instances inside Coq); harness/lr_tables.py translator (certificates it computes are untrusted inputs of the verified checker); the Python Earley recogniser is support/search only. Modelled, not verified: lr1.py itself.",
+    "level_text": "Machine-checked theorems (Coq 8.16, no axioms), for ALL tables, certificates, grammars, token lists and fuel: if check_sound G T C = true and run T accepts, the returned tree is a derivation tree of the start symbol of G whose leaves are the input tokens in order (run_sound, run_sound_gen); an error at index i depends only on tokens 0..i (run_prefix_det). If check_complete G T I F = true (LR(1) item sets and FIRST sets as untrusted certificate) every derivation tree of the start symbol is returned given enough fuel (run_complete), an error at index i implies that no sentence starts with tokens 0..i (error_not_late), and on a sentence run returns its tree or runs out of fuel (sentence_result). The generator is covered per instance: each run rebuilds the Emboss parsers and N random small grammars' parsers with the working tree's lr1.py and decides check_sound and check_complete on their tables and item sets. 'No token is shifted unless a sentence continues' and 'ambiguous grammars are reported' are tested on every string up to length 6 (small grammars) and on sampled Emboss sentences against an independent Earley recogniser.",
+    "level_note": "sound and complete per validated instance (run_sound, run_complete, error_not_late proved for all tables passing the checkers; the checkers pass on the Emboss grammars and on every conflict-free random grammar of the run); error_not_early unproved (false for grammars with unproductive nonterminals; Earley-tested otherwise); the generator itself is covered by translation validation of its output, not by a proof about lr1.py. Trusted: Coq kernel + vm_compute; extraction + OCaml for instance checks in quick (a sample is re-evaluated inside Coq and compared; thorough re-evaluates all small-grammar instances inside Coq); harness/lr_tables.py translator (certificates it computes are untrusted inputs of the verified checker); the Python Earley recogniser is support/search only. Modelled, not verified: lr1.py itself.",
 }
 
 FUEL_SMALL = lambda n: 400 + 80 * n
@@ -49,6 +50,7 @@ def small_grammar_cases(ctx, bench, n_grammars, first_slot, corpus):
         sg.slot = first_slot + g
         sg.entries = []
         sg.sound = None
+        sg.complete = None
         sg.parser = None
         sg.unclean = len(L.clean_grammar(sg.start, sg.prods)) != len(sg.prods)
         _my = L.min_yields(sg.prods)
@@ -71,9 +73,11 @@ def small_grammar_cases(ctx, bench, n_grammars, first_slot, corpus):
         sg.conflicts = len(sg.parser.conflicts)
         ctx.count("grammar:" + ("conflicts" if sg.conflicts else "conflict-free"))
         ctx.count("states", len(sg.parser.item_sets))
-        sg.tab = bench.add_table(sg.parser, sg.slot)
+        sg.tab = bench.add_table(sg.parser, sg.slot, items_for=(sg.prods, sg.start))
         bench.add_grammar(sg.slot, sg.start, sg.prods)
         bench.cmd([10, sg.slot, sg.slot], lambda o, sg=sg: setattr(sg, "sound", o[3] == 1))
+        sg.complete = None
+        bench.cmd_complete(sg.slot, sg.slot, sg.prods, lambda o, sg=sg: setattr(sg, "complete", o[3] == 1))
         terms = sorted(set(sg.parser.terminals) - {lr1.END_OF_INPUT})
         sg.terms = terms
         maxlen = 6 if len(terms) <= 3 else 5
@@ -176,6 +180,9 @@ def judge_small_grammar(ctx, bench, sg):
         if not sg.sound and not spec_failure:
             ctx.violation("check-sound-instance-fails", "check_sound rejects the conflict-free tables lr1.py built, no misparse found up to length 6",
                           dict(kind="theorem", theorem="check_sound G T C = true (instance)", **gram), found_input=False)
+        if not sg.complete and not spec_failure:
+            ctx.violation("check-complete-instance-fails", "check_complete rejects the conflict-free tables/item sets lr1.py built, no misparse found up to length 6",
+                          dict(kind="theorem", theorem="check_complete G T I F = true (instance)", **gram), found_input=False)
     return bad
 
 
@@ -220,7 +227,9 @@ def emboss_cases(ctx, bench, name, parser, start, slot, n_sent, budgets, n_earle
 
 
 def judge_emboss(ctx, bench, name, entries, cp, prods, start):
+    """returns (#correspondence mismatches, #inputs on which the parser contradicts the grammar)"""
     bad = 0
+    nspec = 0
     for e in entries:
         w, py = e["w"], e["py"]
         outcome = {1: "accept", 2: "reject", 3: "crash", 4: "out-of-fuel"}.get(py[1], "?")
@@ -240,6 +249,7 @@ def judge_emboss(ctx, bench, name, entries, cp, prods, start):
         ctx.count("%s:earley-compared" % name)
         accepted = py[1] == 1
         if accepted != e["earley"]:
+            nspec += 1
             ctx.violation("lr1-parser-accepts-nonsentence" if accepted else "lr1-parser-rejects-sentence",
                           "the generated %s parser %s a token string that the grammar %s" % (
                               name, "accepts" if accepted else "rejects", "derives" if e["earley"] else "does not derive"),
@@ -250,6 +260,7 @@ def judge_emboss(ctx, bench, name, entries, cp, prods, start):
             tree = cp.parse(L.make_tokens(w)).parse_tree
             msg = L.check_derivation(tree, start, prods, w)
             if msg:
+                nspec += 1
                 ctx.violation("lr1-tree-not-a-derivation", "accepted but the tree is not a derivation: %s" % msg,
                               dict(kind="tokens", parser=name, tokens=w, problem=msg), found_input=True)
         elif py[1] == 2 and "viable" in e and py[3] != e["viable"]:
@@ -257,7 +268,7 @@ def judge_emboss(ctx, bench, name, entries, cp, prods, start):
             ctx.violation("lr1-error-reported-%s" % ("late" if late else "early"),
                           "%s parser reports the error at token %d, longest viable prefix has %d tokens" % (name, py[3], e["viable"]),
                           dict(kind="tokens", parser=name, tokens=w, error_index=py[3], viable_prefix=e["viable"]), found_input=True)
-    return bad
+    return bad, nspec
 
 
 def run(ctx):
@@ -273,14 +284,24 @@ def run(ctx):
     ctx.assumptions = ["symbols are non-empty strings (lr1.py treats falsy symbols as epsilon)",
                        "completeness / no-late-error / conflict reporting are tested, not proved (see level_note)",
                        "PYTHONHASHSEED is fixed by ./check; lr1.Grammar.parser() is hash-seed dependent on grammars with an Accept/Reduce clash (finding F11)"]
+    T0 = time.time()
+    timing = ctx.extra.setdefault("timing_s", {})
+
+    def lap(name):
+        nonlocal T0
+        timing[name] = round(time.time() - T0, 1)
+        T0 = time.time()
+
     ctx.audit()
-    ctx.check_theorems("EmbossV.LR.Properties_C08", "LR/Properties_C08.v", expect_min=4)
+    ctx.check_theorems("EmbossV.LR.Properties_C08", "LR/Properties_C08.v", expect_min=8)
+    lap("coq build + assumptions")
 
     driver = L.build_driver(ctx)
     ctx.obligation("extracted checker builds (coqc Extract.v, ocamlfind ocamlopt)", driver is not None)
     if driver is None:
         ctx.violation("extraction-broken", "the extracted model could not be built", dict(kind="build"), found_input=False)
         return
+    lap("extraction + ocamlopt")
     thorough = ctx.thorough()
     try:
         from compiler.front_end import make_parser, module_ir, lr1
@@ -306,16 +327,18 @@ def run(ctx):
                               dict(kind="grammar", grammar="module_ir.PRODUCTIONS", start=start,
                                    first_conflict=str(sorted(str(c)[:300] for c in list(p.conflicts)[:3]))), found_input=True)
                 continue
-            tab = bench.add_table(p, slot)
+            tab = bench.add_table(p, slot, items_for=(list(module_ir.PRODUCTIONS), start))
             bench.add_grammar(slot, start, list(module_ir.PRODUCTIONS))
-            rec = dict(parser=p, start=start, slot=slot, sound=None, tab=tab)
+            rec = dict(parser=p, start=start, slot=slot, sound=None, complete=None, tab=tab)
             bench.cmd([10, slot, slot], lambda o, rec=rec: rec.__setitem__("sound", o[3] == 1))
+            bench.cmd_complete(slot, slot, list(module_ir.PRODUCTIONS), lambda o, rec=rec: rec.__setitem__("complete", o[3] == 1))
             if name == "module":
                 n_sent, budgets, n_e = (1500, [5, 20, 60, 150], 600) if thorough else (150, [5, 20, 60, 150], 90)
             else:
                 n_sent, budgets, n_e = (1500, [3, 10, 30, 80], 900) if thorough else (150, [3, 10, 30, 80], 150)
             rec["entries"], rec["cp"], rec["prods"] = emboss_cases(ctx, bench, name, p, start, slot, n_sent, budgets, n_e)
             emboss[name] = rec
+        lap("emboss: lr1 generation, translation, python runs, earley")
         # ---- random small grammars ------------------------------------------------------------
         corpus = []
         paths = sorted(glob.glob(os.path.join(fw.VERIF, "corpus", "C08", "*.json")))
@@ -331,7 +354,9 @@ def run(ctx):
                 ctx.note("unreadable corpus file " + pth)
         n_grammars = 1500 if thorough else 120
         smalls = small_grammar_cases(ctx, bench, n_grammars, 10, corpus)
+        lap("random grammars: lr1, translation, python runs")
         bench.flush("main")
+        lap("extracted model run")
     except L.TranslationError as ex:
         ctx.obligation("tables translate / model runs", False)
         ctx.violation("translator-failed", "table translation or model run failed: %s" % ex,
@@ -343,11 +368,16 @@ def run(ctx):
     for name, rec in emboss.items():
         ctx.obligation("check_sound on lr1's tables for the Emboss %s grammar (%d states; extracted checker)"
                        % (name, len(rec["tab"].action)), bool(rec["sound"]))
-        bad = judge_emboss(ctx, bench, name, rec["entries"], rec["cp"], rec["prods"], rec["start"])
+        bad, nspec = judge_emboss(ctx, bench, name, rec["entries"], rec["cp"], rec["prods"], rec["start"])
         ctx.obligation("correspondence: model run = Parser.parse on %d %s inputs" % (len(rec["entries"]), name), bad == 0)
-        if not rec["sound"]:
+        ctx.obligation("check_complete on lr1's tables + item sets for the Emboss %s grammar (%d item cores; extracted checker)"
+                       % (name, len(rec["tab"].item_lines)), bool(rec["complete"]))
+        if not rec["sound"] and not nspec:
             ctx.violation("check-sound-instance-fails", "check_sound rejects the tables lr1.py built for the Emboss %s grammar" % name,
                           dict(kind="theorem", theorem="check_sound G T C = true (Emboss %s instance)" % name), found_input=False)
+        if not rec["complete"] and not nspec:
+            ctx.violation("check-complete-instance-fails", "check_complete rejects the tables/item sets lr1.py built for the Emboss %s grammar" % name,
+                          dict(kind="theorem", theorem="check_complete G T I F = true (Emboss %s instance)" % name), found_input=False)
     nbad = 0
     ncf = 0
     for sg in smalls:
@@ -358,47 +388,83 @@ def run(ctx):
     nstr = sum(len(sg.entries) for sg in smalls)
     unsound = [sg.slot for sg in smalls if sg.parser is not None and not sg.conflicts and not sg.sound]
     ctx.obligation("check_sound = true on lr1's tables for each of the %d conflict-free random grammars" % ncf, not unsound)
+    incomplete = [sg.slot for sg in smalls if sg.parser is not None and not sg.conflicts and not sg.complete]
+    ctx.obligation("check_complete = true on lr1's tables + item sets for each of the %d conflict-free random grammars" % ncf, not incomplete)
+    ctx.count("check_complete-true-on-grammars-with-conflicts", sum(1 for sg in smalls if sg.parser is not None and sg.conflicts and sg.complete))
     ctx.obligation("correspondence: model run = Parser.parse on %d strings over %d random grammars" % (nstr, len(smalls)), nbad == 0)
     ctx.extra["random_grammars"] = dict(total=len(smalls), conflict_free=ncf,
                                         generator_exceptions=sum(1 for sg in smalls if sg.parser is None))
 
+    lap("verdicts (earley, derivation checks)")
     # ---- the same commands inside Coq (vm_compute) for a sample / all ------------------------
-    coq_recheck(ctx, bench, [sg for sg in smalls if sg.parser is not None], thorough)
+    coq_recheck(ctx, bench, [sg for sg in smalls if sg.parser is not None], thorough, emboss)
+    lap("in-Coq re-evaluation")
 
 
-def coq_recheck(ctx, bench, smalls, thorough):
-    """Re-evaluate check_sound + runs for small grammars inside Coq and compare with the extracted outputs."""
+def coq_recheck(ctx, bench, smalls, thorough, emboss=None):
+    """Re-evaluate check_sound/check_complete + runs inside Coq (vm_compute) and compare with the
+    extracted outputs: a sample of the small grammars in quick, all of them and the Emboss
+    tables in thorough.  Batches are compiled in parallel."""
+    from concurrent.futures import ThreadPoolExecutor
     I = bench.I
     pick = smalls if thorough else smalls[:6]
-    if not pick:
-        return
     plines = [[2, k, I.sym[l]] + [I.sym[x] for x in r] for k, (l, r) in enumerate(I.prod_vals)]
-    batches = [pick[i:i + 40] for i in range(0, len(pick), 40)]
-    total = agree = 0
-    ok = True
-    for bi, batch in enumerate(batches):
+    jobs = []          # (name, lines, expect, big?)
+    for bi, i in enumerate(range(0, len(pick), 40)):
+        batch = pick[i:i + 40]
         lines = list(plines)
         expect = []
         for sg in batch:
-            lines += L.table_lines(sg.tab, sg.slot, I, bench.eoi)
+            lines += L.table_lines(sg.tab, sg.slot, I, bench.eoi, sg.tab.item_lines)
             lines.append([9, sg.slot, I.s(sg.start)] + [I.p(p) for p in sg.prods])
             lines.append([10, sg.slot, sg.slot])
             expect.append([10, sg.slot, sg.slot, 1 if sg.sound else 0])
-            for e in sg.entries[: (len(sg.entries) if thorough else 150)]:
+            lines += L.first_cert_lines(sg.prods, I)
+            lines.append([22, sg.slot, sg.slot])
+            expect.append([22, sg.slot, sg.slot, 1 if sg.complete else 0])
+            for e in sg.entries[: (400 if thorough else 150)]:
                 lines.append([13, sg.slot, FUEL_SMALL(len(e["w"]))] + [I.s(x) for x in e["w"]])
                 expect.append(e["model"])
+        jobs.append(("small_%d" % bi, lines, expect, False))
+    if thorough and emboss:
+        from compiler.front_end import module_ir
+        for name, rec in emboss.items():
+            prods = list(module_ir.PRODUCTIONS)
+            lines = list(plines) + L.table_lines(rec["tab"], rec["slot"], I, bench.eoi, rec["tab"].item_lines)
+            lines.append([9, rec["slot"], I.s(rec["start"])] + [I.p(p) for p in prods])
+            lines.append([10, rec["slot"], rec["slot"]])
+            expect = [[10, rec["slot"], rec["slot"], 1 if rec["sound"] else 0]]
+            lines += L.first_cert_lines(prods, I)
+            lines.append([22, rec["slot"], rec["slot"]])
+            expect.append([22, rec["slot"], rec["slot"], 1 if rec["complete"] else 0])
+            for e in rec["entries"][:200]:
+                lines.append([13, rec["slot"], FUEL_BIG(len(e["w"]))] + [I.s(x) for x in e["w"]])
+                expect.append(e["model"])
+            jobs.append(("emboss_" + name, lines, expect, True))
+    if not jobs:
+        return
+
+    def work(job):
+        name, lines, expect, big = job
         try:
-            got = L.coq_eval_main(ctx, "small_%d" % bi, lines, timeout=1500)
+            got = L.coq_eval_main(ctx, name, lines, timeout=2400 if big else 1500, stack_unlimited=big)
         except L.TranslationError as ex:
-            ok = False
-            ctx.note("in-Coq evaluation failed: %s" % str(ex)[-600:])
-            break
-        total += len(expect)
-        agree += sum(1 for a, b in zip(got, expect) if a == b)
-        if len(got) != len(expect):
-            ok = False
-    ok = ok and total == agree
-    ctx.obligation("in-Coq vm_compute of LR.Exec.main = extracted OCaml on %d commands (%d small grammars)" % (total, len(pick)), ok)
+            return name, len(expect), 0, str(ex)[-600:]
+        agree = sum(1 for a, b in zip(got, expect) if a == b) if len(got) == len(expect) else 0
+        return name, len(expect), agree, None
+
+    with ThreadPoolExecutor(max_workers=max(1, min(fw.NPROC, 12))) as ex:
+        results = list(ex.map(work, jobs))
+    total = sum(r[1] for r in results)
+    agree = sum(r[2] for r in results)
+    for name, n, a, err in results:
+        if err:
+            ctx.note("in-Coq evaluation %s failed: %s" % (name, err))
+    ok = total == agree
+    ctx.obligation("in-Coq vm_compute of LR.Exec.main = extracted OCaml on %d commands (%d small grammars%s)"
+                   % (total, len(pick), ", Emboss module+expression check_sound/check_complete" if (thorough and emboss) else ""), ok)
     if not ok:
         ctx.violation("extraction-differs-from-coq", "extracted model and vm_compute disagree (%d/%d agree)" % (agree, total),
-                      dict(kind="correspondence", correspondence="extracted LR.Exec.main vs vm_compute"), found_input=False)
+                      dict(kind="correspondence", correspondence="extracted LR.Exec.main vs vm_compute",
+                           batches=[dict(name=r[0], commands=r[1], agree=r[2], error=r[3]) for r in results if r[1] != r[2]]),
+                      found_input=False)
